@@ -332,6 +332,32 @@ func c17RunExact(t rt.TB, script []rt.Ev) {
 			}
 		}
 	}
+	// ToMap / ToSlice on a second subscription whose source delivers something else:
+	// precisely the delivered values of THAT subscription; the first result is not rewritten
+	if end == 'C' {
+		n := 0
+		other := []int{7, 8}
+		obs := ro.ToMap(func(x int) (int, int) { return x % 3, x })(ro.Defer(func() ro.Observable[int] {
+			n++
+			if n == 1 {
+				return ro.Just(other...)
+			}
+			return src()
+		}))
+		r1, r2 := rt.NewRecorder[map[int]int](), rt.NewRecorder[map[int]int]()
+		obs.Subscribe(r1)
+		obs.Subscribe(r2)
+		want := map[int]int{}
+		for _, v := range vals {
+			want[v%3] = v
+		}
+		if tr := r2.Trace(); len(tr.Vals) != 1 || !reflect.DeepEqual(tr.Vals[0].(map[int]int), want) {
+			fail("ToMap", "map-differs-on-second-subscription", fmt.Sprintf("ToMap: second subscription over [%s] (the first one saw %v): %s, want %v", rt.ScriptString(script), other, cat.TraceOf(r2.Trace()), want))
+		}
+		if m := r1.Mutated(); m != "" {
+			fail("ToMap", "delivered-map-rewritten", m)
+		}
+	}
 	// Collect (terminating scripts only)
 	if end != 0 {
 		got, err := ro.Collect(src())
